@@ -23,6 +23,9 @@ NOT_YET = {
 }
 
 def main():
+    import glob
+    for f in sorted(glob.glob("/verif/tools/manifest.d/*.json")):
+        CHECKS.update(json.load(open(f)))
     props = [json.loads(l) for l in open("/verif/properties.jsonl")]
     checks = []
     na = []
